@@ -525,6 +525,8 @@ fn c04_reopen_check(s: &Storage<ArrStorage>, m: &C04Model) {
         calls: 0,
         fail_at: u32::MAX,
         bad_write: false,
+        fail_flushes: 0,
+        failed_flushes: 0,
     };
     let mut s2 = ok(Storage::<ArrStorage>::with_data(copy));
     assert!(s2.data.calls == 0, "reopening a current-version file wrote to it");
@@ -1381,6 +1383,54 @@ fn c32_fail_insert() {
     kani::cover!(seen_last, "last back-end call of the operation fails");
     kani::cover!(seen_none, "no failure injected");
     kani::cover!(true, "end of harness reachable");
+}
+
+//@ id=C32 tier=quick timeout=900 cbmc="--max-field-sensitivity-array-size 200" args="--no-assertion-reach-checks" bounds="storage [A:8][free 33][C:8][D:1]; insert_bytes(17 symbolic bytes) whose OUTERMOST commit's StorageData::flush fails (all back-end writes succeed), once directly and once nested inside an explicit transaction()/commit(id) pair (symbolic choice); then one successful insert" desc="a failing flush at the outermost commit is reported as Err and the transaction nesting counter is still back at 0, so the following successful insert reaches StorageData::flush again (the write-ahead log is cleared; nothing later is rolled back at reopen)" kernel="Storage::insert_bytes,Storage::transaction,Storage::begin_transaction,Storage::commit,Storage::end_transaction"
+#[kani::proof]
+#[kani::stub(std::fmt::format, crate::verif_support::fmt_stub)]
+#[kani::stub(crate::DbError::new, crate::verif_support::dberror_new_stub)]
+#[kani::stub(crate::storage::storage_records::StorageRecords::take_free, crate::storage::storage_records::verif_h::c04_take_free_model)]
+#[kani::stub(crate::storage::storage_records::StorageRecords::take_free_after, crate::storage::storage_records::verif_h::c04_take_free_after_model)]
+#[kani::stub(crate::storage::storage_records::StorageRecords::mark_free_compact, crate::storage::storage_records::verif_h::c04_mark_free_compact_model)]
+#[kani::stub(crate::storage::storage_records::StorageRecords::mark_free, crate::storage::storage_records::verif_h::c04_mark_free_model)]
+#[kani::stub(crate::storage::storage_records::StorageRecords::clear_free, crate::storage::storage_records::verif_h::c04_clear_free_model)]
+#[kani::stub(crate::storage::storage_records::StorageRecords::free_size, crate::storage::storage_records::verif_h::c04_free_size_model)]
+#[kani::stub(alloc::slice::stable_sort, c04_stable_sort_stub)]
+#[kani::unwind(50)]
+fn c32_failed_flush_closes_transaction() {
+    let (mut s, _m) = c04_prefix(1);
+    let payload: [u8; C04_MAXP] = kani::any();
+    c32_arm(&mut s, u32::MAX);
+    s.data.fail_flushes = 1;
+    let nested: bool = kani::any();
+    let failed;
+    if nested {
+        let id = s.transaction();
+        let r = s.insert_bytes(&payload[..17]);
+        assert!(r.is_ok(), "nested insert fails although no back-end write failed");
+        std::mem::forget(r);
+        assert!(s.data.flushes == 0 && s.data.failed_flushes == 0, "nested commit reached flush");
+        let c = s.commit(id);
+        failed = c.is_err();
+        std::mem::forget(c);
+    } else {
+        let r = s.insert_bytes(&payload[..17]);
+        failed = r.is_err();
+        std::mem::forget(r);
+    }
+    assert!(s.data.failed_flushes == 1, "outermost commit did not call flush");
+    assert!(failed, "flush failure swallowed: operation reported success");
+    assert!(s.transactions == 0, "failed flush left the storage transaction open (nesting counter not restored)");
+    let one = [7u8; 1];
+    let r2 = s.insert_bytes(&one);
+    assert!(r2.is_ok(), "operation after a failed flush fails");
+    std::mem::forget(r2);
+    assert!(s.data.flushes == 1, "successful operation after a failed flush never reaches flush (its commit is not the outermost)");
+    assert!(s.transactions == 0, "successful operation left a transaction open");
+    kani::cover!(nested, "flush fails at the commit of an explicit outer transaction");
+    kani::cover!(!nested, "flush fails at the operation's own commit");
+    kani::cover!(true, "end of harness reachable");
+    std::mem::forget(s);
 }
 
 //@ id=C32 tier=quick timeout=900 cbmc="--max-field-sensitivity-array-size 200" args="--no-assertion-reach-checks" bounds="storage [A:8][free 33][C:8][D:1]; insert_bytes_at(A, offset 4, 8 bytes) (grows in place); fail_at enumerated 0..=4 over the 4 back-end write/resize calls of the operation (and no failure), each on a fresh storage; stored bytes symbolic; free index = contract model" desc="if insert_bytes_at(A, returns Err because a back-end write/resize failed, the transaction nesting counter is back at 0 and a following successful insert reaches StorageData::flush; without failure the operation flushes exactly once" kernel="Storage::insert_bytes_at,Storage::ensure_size,Storage::enlarge_in_place,Storage::transaction,Storage::begin_transaction,Storage::commit,Storage::end_transaction"
